@@ -195,7 +195,7 @@ def check_case(case, ctx: Ctx) -> CaseResult:
 
 
 ACTIVE = ('preparing', 'submitted', 'running')
-OUTPUTS_RELOADED_FOR = ('running', 'failed', 'succeeded')
+OUTPUTS_RELOADED_FOR = ('running', 'failed', 'submit-failed', 'succeeded')
 FIELD_SIG = {
     'hold_point': 'C19:hold-point-differs',
     'stop_point': 'C19:stop-point-differs',
@@ -262,12 +262,11 @@ def compare_pools(before, after, where, viol, spec=None, to_int=None,
                            'completed-output')
                 elif (fld == 'outputs' and not a['outputs']
                         and b['status'] == a['status']
-                        and a['status'] not in OUTPUTS_RELOADED_FOR):
+                        and a['status'] in ('waiting', 'submitted')):
                     # one root cause: load_db_task_pool_for_restart reloads
                     # completed outputs only for running / failed /
-                    # succeeded tasks
-                    sig = ('C19:task-outputs-lost:'
-                           'status-not-running-failed-succeeded')
+                    # submit-failed / succeeded tasks
+                    sig = 'C19:task-outputs-lost:waiting-or-submitted-task'
                 elif (fld == 'held' and a['held'] and not b['held']
                         and hold_point is not None and to_int is not None
                         and to_int.get(ident.split('/', 1)[0], -10**9)
